@@ -614,6 +614,94 @@ func vfC08Pair(mk func(name string) *vfCW, r1, r2 *vfCReq) {
 	vfCover("end")
 }
 
+// vfC08Many: like vfC08Pair for n requests; the outcome must equal that of SOME sequential order.
+func vfC08Many(mk func(name string) *vfCW, reqs []*vfCReq) {
+	vfThreads(vfParam("preempt", 2))
+	wc := mk("concurrent")
+	ac := wc.actorFor()
+	done := make(chan int, len(reqs))
+	for i := range reqs {
+		r := reqs[i]
+		go func() { wc.run(ac, r); done <- 1 }()
+	}
+	for range reqs {
+		<-done
+	}
+	vfCover("both-completed")
+	vfAssert(len(wc.held) == 0, "lock-still-held-after-the-requests")
+	var perms [][]int
+	var gen func(cur []int, used int)
+	gen = func(cur []int, used int) {
+		if len(cur) == len(reqs) {
+			perms = append(perms, append([]int(nil), cur...))
+			return
+		}
+		for i := range reqs {
+			if used&(1<<uint(i)) == 0 {
+				gen(append(cur, i), used|1<<uint(i))
+			}
+		}
+	}
+	gen(nil, 0)
+	same := false
+	noErr := false
+	for _, pm := range perms {
+		ws := mk("sequential")
+		as := ws.actorFor()
+		for _, i := range pm {
+			ws.run(as, reqs[i])
+		}
+		noErr = noErr || len(ws.errs) == 0
+		same = vfOr(same, vfSameOutcome(wc, ws))
+		if !vfSymbolic(same) && same {
+			break
+		}
+	}
+	vfAssert(same, "final-state-differs-from-every-sequential-execution")
+	if noErr {
+		vfCover("no-error")
+	}
+	vfCover("end")
+}
+
+// three Likes of one owned object by three peers, concurrently
+func VfC08_ThreeLikes() {
+	base := vfC08Base()
+	N := vfIRI("ownedNote")
+	var ids, peers []string
+	for i := 0; i < 3; i++ {
+		ids = append(ids, vfIRI("act"))
+		peers = append(peers, vfIRI("peer"))
+	}
+	vfDistinct(ids)
+	vfDistinct(peers)
+	vfRoles(ids, []string{N}, peers)
+	mkw := func(name string) *vfCW {
+		w := base(name)
+		w.put(N, &vfEnt{kind: "Note", likesK: "Collection"})
+		return w
+	}
+	var reqs []*vfCReq
+	for i := 0; i < 3; i++ {
+		reqs = append(reqs, &vfCReq{name: "r" + string(rune('1'+i)), body: vfDoc("Like", "id", ids[i], "actor", peers[i], "object", N)})
+	}
+	vfC08Many(mkw, reqs)
+}
+
+// three deliveries of one and the same Create, concurrently
+func VfC08_ThreeDuplicates() {
+	base := vfC08Base()
+	a, n, p := vfIRI("act"), vfIRI("note"), vfIRI("peer")
+	vfRoles([]string{a}, []string{n}, []string{p})
+	body := vfDoc("Create", "id", a, "actor", p, "to", []interface{}{"https://www.w3.org/ns/activitystreams#Public"},
+		"object", map[string]interface{}{"type": "Note", "id": n, "attributedTo": p})
+	var reqs []*vfCReq
+	for i := 0; i < 3; i++ {
+		reqs = append(reqs, &vfCReq{name: "r" + string(rune('1'+i)), body: body})
+	}
+	vfC08Many(base, reqs)
+}
+
 var vfC08Actor, vfC08Inbox, vfC08Outbox string
 
 // vfRoles: ids of different roles are different; within a role they are free to alias.
@@ -622,7 +710,7 @@ func vfRoles(groups ...[]string) {
 		[]string{vfUFIRI("followersOf", vfC08Actor)}, []string{vfUFIRI("followingOf", vfC08Actor)}, []string{vfUFIRI("likedOf", vfC08Actor)})
 	// contract of NewID: fresh ids
 	var fresh []string
-	for _, r := range []string{"r1", "r2"} {
+	for _, r := range []string{"r1", "r2", "r3"} {
 		for k := 0; k < 4; k++ {
 			fresh = append(fresh, vfUFIRI("newid", r+"#"+string(rune('0'+k))))
 		}
